@@ -269,7 +269,7 @@ def find_sites(src, class_name, helper_names=(), nontoken_texts=()):
                 continue
             if is_int and fn.name in helper_names:
                 continue      # the helper's own conversions are reached through its call sites
-            arg = call.args[0]
+            arg = _inline_locals(call.args[0], fn)
             site = {"func": fn.name, "lineno": call.lineno, "text": ast.unparse(call), "helper": call.func.attr if is_helper else None,
                     "base": _const_base(call) if is_int else None}
             if isinstance(arg, ast.Call) and not _token_name(arg):
@@ -290,6 +290,31 @@ def find_sites(src, class_name, helper_names=(), nontoken_texts=()):
                 site["kind"] = "nontoken"       # listed by the contract: the argument is an object with __int__, not a token
             sites.append(site)
     return sites
+
+
+def _inline_locals(e, fn, depth=2):
+    """names that the function assigns exactly once, by a plain `name = <expr>`, are replaced by that expression
+    (`first = parsed_register[0]; int(first[1])` reads like `int(parsed_register[0][1])`)"""
+    if depth == 0:
+        return e
+    assigns = {}
+    for n in ast.walk(fn):
+        if isinstance(n, ast.Assign) and len(n.targets) == 1 and isinstance(n.targets[0], ast.Name):
+            assigns.setdefault(n.targets[0].id, []).append(n.value)
+        elif isinstance(n, (ast.AugAssign, ast.AnnAssign, ast.For, ast.NamedExpr)):
+            for t in ast.walk(n.target if not isinstance(n, ast.NamedExpr) else n.target):
+                if isinstance(t, ast.Name):
+                    assigns.setdefault(t.id, []).extend([None, None])
+    params = {a.arg for a in fn.args.args}
+
+    class Sub(ast.NodeTransformer):
+        def visit_Name(self, node):
+            v = assigns.get(node.id)
+            if isinstance(node.ctx, ast.Load) and node.id not in params and v is not None and len(v) == 1 and v[0] is not None:
+                return _inline_locals(v[0], fn, depth - 1)
+            return node
+    import copy
+    return ast.fix_missing_locations(Sub().visit(copy.deepcopy(e)))
 
 
 def helper_paths(src, class_name, helper, s):
